@@ -184,6 +184,19 @@ def _ground_runner(tier, seed):
     def note(what, **kw):
         if len(bad) < 8:
             bad.append(dict(what=what, **kw))
+    class _Raised:
+        def __init__(self, e): self.e = repr(e)
+        def __eq__(self, o): return False
+        def __ne__(self, o): return True
+        def __repr__(self): return 'raised ' + self.e
+    def _wrap(fn):
+        def g(*a):
+            try:
+                return fn(*a)
+            except Exception as e:      # a look-up that raises on shipped data is a violation with that input, not a checker crash
+                return _Raised(e)
+        return g
+
     for iname, (ver, msgs, enums) in sorted(oracle.items()):
         for mname, args in msgs.items():
             names = [a[0] for a in args]
@@ -194,17 +207,21 @@ def _ground_runner(tier, seed):
                 continue
             for k, (aname, aiface, aenum) in enumerate(args):
                 n += 2
-                if protocol.get_arg_name(iname, mname, k) != aname:
-                    note('wrong argument name', interface=iname, message=mname, index=k, got=protocol.get_arg_name(iname, mname, k), want=aname)
-                if protocol.look_up_interface(iname, mname, k) != aiface:
+                if _wrap(protocol.get_arg_name)(iname, mname, k) != aname:
+                    note('wrong argument name', interface=iname, message=mname, index=k, got=_wrap(protocol.get_arg_name)(iname, mname, k), want=aname)
+                if _wrap(protocol.look_up_interface)(iname, mname, k) != aiface:
                     note('wrong nil interface', interface=iname, message=mname, index=k)
-                tagged = protocol.interfaces[iname].messages[mname].args[aname].enum
+                try:
+                    tagged = protocol.interfaces[iname].messages[mname].args[aname].enum
+                except KeyError as e:
+                    note('a message / argument of the highest shipped version is missing from the loaded description', interface=iname, message=mname, missing=repr(e))
+                    continue
                 if tagged is None:
                     n += 1
-                    if protocol.look_up_enum(iname, mname, k, 1) != []:
+                    if _wrap(protocol.look_up_enum)(iname, mname, k, 1) != []:
                         note('labels for an argument without enum', interface=iname, message=mname, index=k)
                     continue
-                en = protocol.get_enum(iname, tagged)
+                en = _wrap(protocol.get_enum)(iname, tagged)
                 if en is None:
                     note('enum tag does not resolve', interface=iname, message=mname, index=k, enum=tagged)
                     continue
@@ -230,7 +247,7 @@ def _ground_runner(tier, seed):
                         want = [nm for nm, ev in entries if ev & v] or ['(none)']
                     else:
                         want = [nm for nm, ev in entries if ev == v] or ['INVALID ENUM VALUE']
-                    got = protocol.look_up_enum(iname, mname, k, v)
+                    got = _wrap(protocol.look_up_enum)(iname, mname, k, v)
                     if got != want:
                         note('wrong enum labels', interface=iname, message=mname, index=k, value=v, got=got, want=want)
                     elif len(samples) < 3 and len(want) > 1:
@@ -251,8 +268,8 @@ def _ground_runner(tier, seed):
                 note('a lower version won', interface=iname, order=list(perm), got=protocol.interfaces[iname].version, want=best)
     # messages on interfaces without description stay undecorated
     n += 3
-    if protocol.get_arg_name('no_such_interface_xyz', 'foo', 0) is not None or protocol.look_up_enum('no_such_interface_xyz', 'foo', 0, 1) != [] \
-            or protocol.look_up_interface('no_such_interface_xyz', 'foo', 0) is not None:
+    if _wrap(protocol.get_arg_name)('no_such_interface_xyz', 'foo', 0) is not None or _wrap(protocol.look_up_enum)('no_such_interface_xyz', 'foo', 0, 1) != [] \
+            or _wrap(protocol.look_up_interface)('no_such_interface_xyz', 'foo', 0) is not None:
         note('unknown interface is decorated')
     protocol.dump_all()
     res = {'coverage': {'ground_evaluation': {'interfaces': len(oracle), 'xml_files': len(files), 'checks': n, 'load_orders_tried': orders,
@@ -263,7 +280,7 @@ def _ground_runner(tier, seed):
         rp = os.path.join(os.environ.get('VERIF_REPLAY_DIR', os.path.join(os.path.dirname(os.path.dirname(os.path.abspath(__file__))), 'replays')), 'C07')
         os.makedirs(rp, exist_ok=True)
         path = os.path.join(rp, 'ground_instances.json')
-        json.dump({'property': 'C07', 'kind': 'bounded-counterexample', 'function': 'core.wl.protocol (look-ups over the shipped descriptions)', 'inputs': bad}, open(path, 'w'), indent=1)
+        json.dump({'property': 'C07', 'kind': 'bounded-counterexample', 'function': 'core.wl.protocol (look-ups over the shipped descriptions)', 'inputs': bad}, open(path, 'w'), indent=1, default=str)
         res['violations'].append({'path': path, 'suffix': '', 'what': bad[0]['what']})
     return res
 
